@@ -9,10 +9,10 @@ CHECKS = {
  'C03': ('fault_enumeration', 'Hypothesis-generated scenarios with enumerated crash prefixes on a freezable controlled backend, os._exit inside the local temp-file protocol in a child process, and permanent call failures; post-state validity oracle via independent reader + follow-up commands',
          'For generated pre-histories, commands and completion orders, the store is frozen after k of the M mutations of the command (generated k incl. 0,1,M-1,M), or the child is killed at the j-th primitive step of a local write, or one call fails for good; the surviving state must decode, show only complete snapshots, stay usable, and clean up to exactly the referenced chunks.',
          'Kill = freeze of the atomic in-memory store / os._exit in the child; power loss is not modelled; vk/refimpl.py decides completeness.'),
- 'C09': ('exploration', 'Harness-owned completion order of all backend calls (controlled backend releasing parked calls per a generated schedule) + generated delay injection at lock/queue/executor boundaries + injected permanent failures; model-result, in-flight, slot and hang oracles',
+ 'C09': ('exploration', 'Harness-owned completion order of all backend calls (controlled backend releasing parked calls per a generated schedule) + generated delay injection at lock/queue/executor/cache-directory boundaries + slow backends + injected permanent failures; model-result, in-flight, slot and hang oracles (event loop watched from outside)',
          'Every explored schedule must end with the sequential result, never more than N transfers outstanding, all slots returned after success and failure, no hang. Completion orders are enumerated by the harness; bytecode-level pre-emption is only sampled (weakest fit of the technique, see DESIGN.md section 8).',
          'Hang is decided by a wall-clock rule (20 s without progress on a millisecond workload); delays only change timing.'),
- 'C19': ('exploration', 'Hypothesis-generated option/source combinations, each run through replicat.__main__.main() in a pristine forked child; metamorphic precedence / source-independence / default / exclusion relations',
+ 'C19': ('exploration', 'Hypothesis-generated option/source combinations, each run through replicat.__main__.main() in a pristine forked child; metamorphic precedence / source-independence / default / exclusion / config-location relations plus a differential against guess_type for backend options',
          'No model of the coercion rules is used: observations (effective namespace values with types and the constructed backend arguments) of related invocations are compared with each other.',
          'fork() of a process that imported replicat but never ran main() stands for a fresh process; _cmd_handler is replaced by a recorder that calls the real _instantiate_backend.'),
  'C12': ('fault_enumeration', 'Hypothesis-generated fault plans (backend x operation x position x kind x run length) against fault-injecting file primitives and fake S3/B2 transports; small grid enumerated exhaustively in the thorough tier',
@@ -42,7 +42,7 @@ CHECKS = {
  'C17': ('exploration', 'Enumerated settings lattice (exhaustive in thorough) + Hypothesis-generated mutated settings dictionaries and add-key chains; rejected-implies-untouched / accepted-implies-usable oracle',
          'Every lattice point must be accepted and usable; every generated dictionary must be either rejected without touching the backend or usable by a fresh Repository (snapshot/restore/list/clean twice); every key unlocks with exactly its own password.',
          'Digest sizes of 1..7 bytes are outside the domain (collision-prone); scrypt costs kept tiny.'),
- 'C18': ('exploration', 'Hypothesis-generated two-client histories; metamorphic comparison of every command across cache universes (disabled/current/empty/other client\'s/interrupted-write states)',
+ 'C18': ('exploration', 'Hypothesis-generated two-client histories; metamorphic comparison of every command across cache universes (disabled/current/empty/other client\'s/interrupted-write states, a cache left by a really killed child process, a long-lived client whose verified entry is damaged afterwards)',
          'stdout, return value, restored tree, exception type and resulting objects must equal the cache-disabled run for each universe, on copies of the backend.',
          'Interrupted cache writes are modelled as missing/empty/proper-prefix entries; stderr is not compared; order of unreadable rows is unspecified.'),
  'C20': ('exploration', 'Hypothesis-generated multi-stream workloads run under a deterministic discrete-event scheduler with a virtual clock; window-inequality and byte-transparency oracles; command-level chunk-size check',
